@@ -19,7 +19,8 @@ Definition rel_is_mutex (r : relation) : bool :=
   (r_min r =? 0)%Z && (r_max r =? 1)%Z && (1 <? nchildren r)%Z.
 Definition rel_is_group (r : relation) : bool := (1 <? nchildren r)%Z.
 Definition rel_is_cardinal (r : relation) : bool :=
-  rel_is_group r && negb (rel_is_alternative r) && negb (rel_is_or r) && negb (rel_is_mutex r).
+  negb (rel_is_mandatory r) && negb (rel_is_optional r) && negb (rel_is_alternative r)
+  && negb (rel_is_or r) && negb (rel_is_mutex r).
 
 (* Relation.__str__ given the owner's name *)
 Definition rel_type_str (r : relation) : string :=
